@@ -192,7 +192,28 @@ def ctx_specs(r):
     return {"single": False, "units": r.choice([[1], [1, 2], [0, 3], [2, 17, 247]]), "size": 16}
 
 
-def run_session(r, fe, framer, hostile_kinds, tier):
+FRAMING = {"socket": "FSocket", "ascii": "FAscii", "binary": "FBinary", "tls": "FTls"}
+
+
+def short_write_pdus(r, size):
+    """FC15/16/23 (and FC21 file record) requests with a CONSISTENT header (quantity / byte count agree) and
+    at least three data words, to be cut at EVERY offset — in particular inside the data block at even
+    offsets, where a decoder that reads 'as many words as are there' would not raise"""
+    a = r.randrange(0, size - 6)
+    regs = [r.randrange(1, 65536) for _ in range(3)]
+    return {15: L.pdu_write_coils(a, [r.randrange(2) for _ in range(r.choice([17, 20, 24]))]),
+            16: L.pdu_write_regs(a, regs),
+            23: L.pdu_rwm(r.randrange(0, size - 6), 2, a, regs),
+            21: bytes([21, 13, 6, 0, 1, 0, 0, 0, 3]) + b"".join(bytes([v >> 8, v & 255]) for v in regs)}
+
+
+def truncation_items(r, framer, fc, uid, size):
+    """every proper prefix of the PDU, each in a frame of its own with consistent framing"""
+    pdu = short_write_pdus(r, size)[fc]
+    return [("trunc@%d/fc%d" % (k, fc), [L.frame(framer, r.randrange(65536), uid, pdu[:k])]) for k in range(1, len(pdu))]
+
+
+def run_session(r, fe, framer, hostile_kinds, tier, trunc_fc=None):
     """-> dict(ladder=[Case], store=Case|None, probe=Case|None, py=[python-side failure descs], keys=[...])"""
     spec = ctx_specs(r)
     cfg = {"broadcast_enable": r.random() < 0.3, "ignore_missing_slaves": r.random() < 0.3}
@@ -205,13 +226,17 @@ def run_session(r, fe, framer, hostile_kinds, tier):
         streams = {0: b""}
         steps = []
         items = []
+        if trunc_fc is not None:
+            uid0 = r.choice(units_hosted) if not spec["single"] else r.choice([0, 1, 7])
+            items = truncation_items(r, framer, trunc_fc, uid0, spec["size"])
+            hostile_kinds = []
         for hk in hostile_kinds:
             uid = r.choice(units_hosted + [r.choice(units_hosted)] * 2 + [r.choice([0, 1, 9, 255])])
             if r.random() < 0.7:
                 items.append(("valid", [L.frame(framer, r.randrange(65536), r.choice(units_hosted),
                                                 valid_pdu(r, r.choice(VALID_KINDS), spec["size"]))]))
             items.append((hk, hostile(r, hk, framer, uid, spec["size"])))
-        if fe in ("SyncTcp", "SyncSerial"):
+        if fe in ("SyncTcp", "SyncSerial") and trunc_fc is None:
             k = r.random()
             if k < 0.25:
                 items.insert(r.randrange(len(items) + 1), ("timeout", [socket.timeout("timed out")]))
@@ -228,8 +253,8 @@ def run_session(r, fe, framer, hostile_kinds, tier):
                 sf = OSError(32, "broken pipe") if kind == "sendfault" else None
                 obs = run.feed(cid, ch, send_fault=sf) if sf is not None else run.feed(cid, ch)
                 if not isinstance(ch, BaseException):
-                    if fe in L.DGRAM_FES:
-                        streams[len(streams)] = bytes(ch)
+                    if fe in L.DGRAM_FES or framer == "tls":     # TLS framing: one read = one frame
+                        streams[len(streams) + 1000] = bytes(ch)
                     else:
                         streams[cid] = streams.get(cid, b"") + bytes(ch)
                 its = iterations(fe, ch, obs)
@@ -242,6 +267,8 @@ def run_session(r, fe, framer, hostile_kinds, tier):
                                           nontrivial=bool(obs.pip_calls),
                                           key=(fe, framer, desc["chunk"], tuple(steps[-4:]))))
                 out.setdefault("steps", []).append((obs.delivered, obs.store_changed))
+                if obs.escaped is not None:
+                    out["escaped_seen"] = True
                 if fe in ("AioUdp", "TwUdp") and run.shared is not None and len(run.shared.framer._buffer):
                     out["shared_leftover"] = True
                     if obs.raised is not None:      # NOT the known finding: a handler that raised must have reset
@@ -257,19 +284,20 @@ def run_session(r, fe, framer, hostile_kinds, tier):
             if t > 1:
                 out["py"].append({"what": "input table changed", "cell": [u, t, a, old, new], "fe": fe, "framer": framer})
         # ---- store case (MBAP framing: the Coq oracle scans the received bytes for contained writes)
-        if framer == "socket":
-            sterm = ("{| sc_single := %s; sc_bcast := %s; sc_streams := %s; sc_cells := %s; sc_steps := %s |}" % (
-                boolean(spec["single"]), boolean(cfg["broadcast_enable"]),
+        if framer in FRAMING:
+            sterm = ("{| sc_framing := %s; sc_single := %s; sc_bcast := %s; sc_streams := %s; sc_cells := %s; sc_steps := %s |}" % (
+                FRAMING[framer], boolean(spec["single"]), boolean(cfg["broadcast_enable"]),
                 lst(blist(s) for _, s in sorted(streams.items()) if s),
                 lst("{| ce_unit := %s; ce_table := %s; ce_addr := %s; ce_old := %s; ce_new := %s |}" % tuple(z(x) for x in c)
                     for c in run.cells),
                 lst("(%s, %s)" % (nat(d), boolean(ch)) for d, ch in out.get("steps", []))))
-            out["store"] = Case(sterm, {"fe": fe, "ctx": spec, "cfg": cfg,
+            out["store"] = Case(sterm, {"fe": fe, "framer": framer, "ctx": spec, "cfg": cfg,
+                                        "escaped_seen": out.get("escaped_seen", False),
                                         "streams": [s.hex() for _, s in sorted(streams.items())],
                                         "cells": [list(c) for c in run.cells],
                                         "shared_leftover": out.get("shared_leftover", False),
                                         "leftover_after_raise": out.get("leftover_after_raise", False)},
-                                kind="%s/store" % fe, nontrivial=bool(run.cells))
+                                kind="%s/%s/store" % (fe, framer), nontrivial=bool(run.cells))
         # ---- probe on a fresh connection / from a new peer
         listen_only = bool(run.control.ListenOnly)
         dump = run._dump()
@@ -330,6 +358,37 @@ def run_session(r, fe, framer, hostile_kinds, tier):
 _CACHE = {}
 
 
+class watchdog:
+    """hard per-session limit: a handler that never returns (a loop that no longer terminates) must not
+    hang the check — report it as a broken tie and leave"""
+
+    def __init__(self, pid, what, seconds=60):
+        self.pid, self.what, self.seconds = pid, what, seconds
+
+    def _fire(self):
+        import os
+        import sys
+        import faulthandler
+        from lib import main as M
+        path = M.write_replay(self.pid, {"property": self.pid, "verdict": "no-failing-input-found", "seed": common.seed(),
+                                         "no_longer_checks": [{"kind": "watchdog", "detail": "a front-end did not return "
+                                                               "within %ss" % self.seconds, "session": self.what}]})
+        faulthandler.dump_traceback(file=sys.stderr)
+        print("VIOLATION property=%s replay=%s no-failing-input-found" % (self.pid, path), flush=True)
+        os._exit(1)
+
+    def __enter__(self):
+        import threading
+        self.t = threading.Timer(self.seconds, self._fire)
+        self.t.daemon = True
+        self.t.start()
+        return self
+
+    def __exit__(self, *a):
+        self.t.cancel()
+        return False
+
+
 def build(tier):
     if tier in _CACHE:
         return _CACHE[tier]
@@ -343,7 +402,8 @@ def build(tier):
             for _ in range(per_pair):
                 hks = [HOSTILE_KINDS[(hk_i + j) % len(HOSTILE_KINDS)] for j in range(nh)]
                 hk_i += nh
-                s = run_session(r, fe, framer, hks, tier)
+                with watchdog("C12", {"fe": fe, "framer": framer, "hostile_kinds": hks}):
+                    s = run_session(r, fe, framer, hks, tier)
                 ladder += s["ladder"]
                 if s["store"] is not None:
                     store.append(s["store"])
@@ -351,6 +411,21 @@ def build(tier):
                     probe.append(s["probe"])
                 py += s["py"]
                 keys += s["keys"]
+    # every truncation offset of consistent-header FC15/16/23/21 requests, framings that do not size the
+    # frame from the byte count, every front-end
+    for fe in L.FRONTENDS:
+        for framer in ("socket", "ascii", "binary", "tls"):
+            for fc in (15, 16, 23, 21):
+                for _ in range(1 if tier == "quick" else 4):
+                    with watchdog("C12", {"fe": fe, "framer": framer, "trunc_fc": fc}):
+                        s = run_session(r, fe, framer, [], tier, trunc_fc=fc)
+                    ladder += s["ladder"]
+                    if s["store"] is not None:
+                        store.append(s["store"])
+                    if s["probe"] is not None:
+                        probe.append(s["probe"])
+                    py += s["py"]
+                    keys += s["keys"]
     _CACHE[tier] = (ladder, store, probe, py, keys)
     return _CACHE[tier]
 
@@ -382,6 +457,9 @@ def classify(suite, desc):
         # datagrams glued together by the shared framer of the asyncio datagram server
         if fe == "AioUdp" and desc.get("shared_leftover") and not desc.get("leftover_after_raise"):
             return "F-C12-udp-shared-framer"
+        # Twisted TCP keeps the bytes of a frame that made it raise: later chunks are glued to them
+        if fe == "TwTcp" and desc.get("escaped_seen"):
+            return "F-C12-twisted-tcp-escape"
         return None
     if suite in ("probe", "py_probe_and_tables") and "probe" in desc:
         if fe == "TwUdp":
